@@ -74,4 +74,53 @@ theorem insert_size_limit (pp pp' : PP) (sect : Section) (rr : Bytes) (h : inser
     rw [← h.1]
     exact hlen
 
+theorem rrcountInc_failure {pp pp' : PP} {s : Section} {e : Err} (h : rrcountInc pp s = .ok (pp', some e)) : pp' = pp := by
+  unfold rrcountInc at h
+  cases hn : sectionCount pp.packet s with
+  | ok n =>
+    rw [hn] at h
+    simp only [bind_ok] at h
+    split at h
+    · simp at h; exact h.1.symm
+    split at h
+    · simp at h; exact h.1.symm
+    cases hw : writeAt pp.packet (sectionCountOffset s) (put16 (n + 1)) with
+    | ok p' => rw [hw] at h; simp at h
+    | err e => rw [hw] at h; simp at h
+    | panic => rw [hw] at h; simp at h
+    | diverge => rw [hw] at h; simp at h
+  | err e => rw [hn] at h; simp at h
+  | panic => rw [hn] at h; simp at h
+  | diverge => rw [hn] at h; simp at h
+
+/-- **a failed insertion changes nothing** (pointer-free object): whatever the reason reported — too
+large, a second question, a full section — the object returned is the object given -/
+theorem insert_failure_plain (pp pp' : PP) (sect : Section) (rr : Bytes) (e : Err) (hmc : pp.maybeCompressed = false)
+    (h : insertRR pp sect rr = .ok (pp', some e)) : pp' = pp := by
+  unfold insertRR at h
+  simp only [hmc, Bool.false_eq_true, if_false, pure_eq, bind_ok, Option.isSome_none] at h
+  split at h
+  · simp at h; exact h.1.symm
+  obtain ⟨r2, hr2, h⟩ := bind_eq_ok.1 h
+  obtain ⟨pp2, e2⟩ := r2
+  simp only at h
+  split at h
+  · rename_i he
+    simp at h
+    obtain ⟨h1, h2⟩ := h
+    subst h1
+    subst h2
+    exact rrcountInc_failure hr2
+  obtain ⟨io, hio, h⟩ := bind_eq_ok.1 h
+  split at h
+  · simp at h
+  cases sect <;> simp at h
+
+/-- the reasons are reachable: a packet already over the limit is refused, unchanged -/
+theorem insert_too_large (pp : PP) (sect : Section) (rr : Bytes) (hmc : pp.maybeCompressed = false)
+    (hbig : pp.packet.length + rr.length > 8192) : insertRR pp sect rr = .ok (pp, some .packetTooLarge) := by
+  unfold insertRR
+  have : pp.packet.length + rr.length > DNS_MAX_UNCOMPRESSED_SIZE := hbig
+  simp [hmc, this]
+
 end Dns.C10
